@@ -750,7 +750,15 @@ impl Version {
         let first_key: &[u8] = &sst.first_key;
         let last_key: &[u8] = &sst.last_key;
         let upper_level = lower_level + 1;
+        // NOTE:  Two files of one level may share a boundary key when a key's versions straddle
+        // two compaction outputs.  Moving just one of them would invert the newest-first order of
+        // that key's versions across levels, so such a file must go through a real compaction.
+        let shares_boundary_key = lower_level > 0
+            && self.levels[lower_level].upper_bound(last_key)
+                - self.levels[lower_level].lower_bound(first_key)
+                > 1;
         if upper_level < self.levels.len()
+            && !shares_boundary_key
             && self.levels[upper_level].lower_bound(first_key)
                 == self.levels[upper_level].upper_bound(last_key)
         {
